@@ -33,6 +33,8 @@ RULE = ("structured: single-level commands with 2-5 options whose actions are dr
 TRUSTED = [
     "Coq 8.16.1 kernel (coqc); no native_compute; theorems C07_* are 'Closed under the global context'",
     "extraction: ExtrOcamlBasic only, no Extract Constant; OCaml driver ocaml/parse_driver.ml + common_parse/{spec,show}.ml",
+    "translators/builder_tables.py (regex reading of action.rs / range.rs / arg.rs::_build, app_settings.rs / command.rs; it "
+    "exits non-zero naming the construct when a function no longer has the shape it reads, which fails the proof gate)",
     "correspondence: vp/props/c07.py generators, harness/src/modes/parse.rs and modes/c07.rs, comparison of the projection "
     "(per level: id, value source and raw value groups of every entry; error class ArgumentConflict / other)",
     "modelled not verified: Rust core (Vec, String, u8::saturating_add and u8::to_string modelled as N.min 255 (n+1) and "
@@ -59,7 +61,9 @@ TECHNIQUE = ("Coq proof (exact characterisation of remove_overrides; master sing
              "between the loop's control state (parse state, positional counter, trailing flag, pending buffer) and a "
              "scanner that mirrors only that control state, for positionals / `--` / options with any value range; "
              "the parse_top theorems proved once for an abstract class of lines and instantiated; closed form of the "
-             "abstract fold for arbitrary override graphs; composition with C09's level isolation for subcommand chains) "
+             "abstract fold for arbitrary override graphs; composition with C09's level isolation for subcommand chains; "
+             "round 5: the builder facts the model hard-codes are regenerated from the source on every run as Coq tables "
+             "and the model's functions are proved equal to the interpretation of those tables) "
              "+ extracted-model/implementation correspondence + direct python oracle from the property text")
 LEVEL_TEXT = ("Machine-checked theorems (Coq 8.16, closed under the global context) about the executable model of "
               "Parser::{parse (token loop), parse_long_arg, parse_short_arg, parse_opt_value, resolve_pending, react, "
@@ -92,7 +96,33 @@ LEVEL_TEXT = ("Machine-checked theorems (Coq 8.16, closed under the global conte
               "the chain the entries are the fold over that level's own occurrences (C07_chain_levels, via C09's level "
               "isolation; C07_chain_levels_top at parse_top for trees without global arguments; per-level Count/Append closed forms); the default of a flag is derived from Arg::_build for "
               "arguments of the unbuilt definition, required or not, so an overridden required flag reports the action's "
-              "default (C07_built_flag_default, C07_wide_overridden_flag_default).  The model "
+              "default (C07_built_flag_default, C07_wide_overridden_flag_default).  Round 5 (tie by translation): "
+              "translators/builder_tables.py regenerates Gen/ActionTables.v from action.rs, range.rs and arg.rs on every run "
+              "(per ArgAction variant: takes_values, max_num_args, default_num_args, default_value, default_missing_value, "
+              "default_value_parser, value_type_id; the constants and one-expression predicates of ValueRange as an "
+              "expression tree; the block structure and constants of Arg::_build) and Gen/SettingsTables.v from "
+              "app_settings.rs / command.rs; proved: every row equals what the model's functions say, variant list complete "
+              "and in order (C07_action_table), the model's ValueRange constants and predicates are the source's for every "
+              "range (C07_range_consts_table, C07_range_preds_table), Build.arg_build IS the interpreter of the table for "
+              "every argument (C07_arg_build_table, C07_built_takes_value_table), args_override_self is a global setting "
+              "that holds at every level below (C07_args_override_self_global; C07_args_override_self_every_built_level in the real "
+              "build order, any depth) and propagate_subcommand is the table's "
+              "function (C07_settings_propagate_table); Gen/BuildTables.v: the generated --help/--version arguments and help "
+              "subcommand and the whole _check_help_and_version step (C07_generated_args_table, C07_help_version_table), the "
+              "order of the steps of Command::_build_self, of its argument loop, and the deprecated command-level rules "
+              "(C07_build_self_steps_table: Build.build_self composes the model's steps in the order the parts appear in "
+              "the source; C07_args_loop_table, C07_deprecated_table), the "
+              "key order of mkeymap.rs append_keys (C07_arg_keys_table: Cmd.arg_keys is the table's function for every "
+              "argument), the chain case-file flag -> Arg setter -> ArgSettings variant -> model field "
+              "(C07_arg_flags_table), and the copies of takes_values in the C15/C16 models "
+              "(C07_other_models_takes_values); Gen/GateSites.v: the 63 assert!/panic! sites of debug_asserts.rs in source order "
+              "are exactly the classified ones (C07_gate_sites_covered: a check clap adds to its configuration gate breaks "
+              "the lemma), assert_arg is its core && the interpreted checker! table of assert_arg_flags "
+              "(C07_assert_arg_flags_table), assert_app implies the assert_app_flags table (C07_app_flags_table); for the configuration gate the model is STRICTER than the source "
+              "for SetTrue/SetFalse (source: num_args(0..=1) and any value parser allowed): C07_action_gate_table states the "
+              "exact relation, C07_action_gate_table_refuted is the witness that equality fails, C07_gate_implies_source "
+              "that whatever the model's gate accepts passes the source's assertions.  A source edit that changes one of "
+              "these facts breaks the named lemma (gate failure => VIOLATION ... no-failing-input-found).  The model "
               "is tied to clap_builder by running the extracted model and the real crate on the same generated "
               "commands and argument vectors on every check (the concrete lines of the proofs' non-vacuity examples are "
               "corpus cases), and an independent python oracle (scan + fold by "
@@ -104,7 +134,11 @@ LEVEL_NOTE = ("Trusted: Coq kernel, extraction, OCaml driver, Rust harness, gene
               "differential outside them: require_equals, hyphen-value / negative-number arguments, `last` / "
               "allow_missing_positional / low-index multiple positionals (positional counter correction), inferred long "
               "prefixes, positionals before a subcommand name, the globals merge across levels, ignore_errors; the typed "
-              "getters of the real ArgMatches are oracle-only (get_count/get_flag have a modelled view).")
+              "getters of the real ArgMatches are oracle-only (get_count/get_flag have a modelled view).  Known model "
+              "restriction found by the table comparison: a SetTrue/SetFalse argument with num_args(0..=1) or a non-bool "
+              "value parser is accepted by clap but INVALID in the model (Parse/Cmd.v action_max_num_args / "
+              "action_value_type); no generator produces such arguments, so the class of all theorems quantifying over "
+              "`valid`/assert_app commands excludes them (docs/notes/translators.md).")
 
 chance = gen_cmd.chance
 pick = gen_cmd.pick
